@@ -10,3 +10,6 @@ def run(ck):
     image.r20_3_refcount_writers(ck, P)
     image.r20_4_alpha_map_exchange(ck, P)
     image.r5_alpha_count(ck, P)
+    image.r20_4b_exchange_order(ck, P)
+    image.r20_6_region_reinit(ck, P)
+    image.r15_6_free_while_linked(ck, P)
